@@ -413,43 +413,65 @@ static void rc_all(bool thorough)
         }
         // coefficient generators
         double prev_l = -1, prev_h = 2;
-        for (int s = -24; s <= 24; ++s)
-        {
-            for (int kf = -12; kf <= 12; ++kf)
-            {
-                int kt = s - kf;
-                if (kt < -12 || kt > 12) { continue; }
-                a_real fc = (a_real)std::pow(10.0, kf), ts = (a_real)std::pow(10.0, kt);
+        auto check_pair = [&](double fcd, double tsd, long double prodL) {
+                a_real fc = (a_real)fcd, ts = (a_real)tsd;
                 a_real al = a_lpf_gen(fc, ts), ah = a_hpf_gen(fc, ts);
                 std::string in = "{\"fc\":" + num((double)fc) + ",\"ts\":" + num((double)ts) + "}";
                 ++n;
                 ++nt;
-                if (!(al >= 0 && al <= 1) || !(ah >= 0 && ah <= 1)) { R.viol("gen|range", "a generated coefficient is outside [0,1]: lpf " + num((double)al) + ", hpf " + num((double)ah), in); continue; }
+                if (!(al >= 0 && al <= 1) || !(ah >= 0 && ah <= 1)) { R.viol("gen|range", "a generated coefficient is outside [0,1]: lpf " + num((double)al) + ", hpf " + num((double)ah), in); return; }
                 // strict interior wherever the real type can represent it (double: the whole stated range; float saturates sooner)
-                double prod = std::pow(10.0, s), room = EPS == (double)FLT_EPSILON ? 1e6 : 1e12;
-                if (prod >= 1 / room && prod <= room && !(al > 0 && al < 1 && ah > 0 && ah < 1)) { R.viol("gen|interior", "for fc*ts = " + num(prod) + " the coefficients must lie strictly inside (0,1): lpf " + num((double)al) + ", hpf " + num((double)ah), in); continue; }
+                double prod = (double)prodL, room = EPS == (double)FLT_EPSILON ? 1e6 : 1e12;
+                if (prod >= 1 / room && prod <= room && !(al > 0 && al < 1 && ah > 0 && ah < 1)) { R.viol("gen|interior", "for fc*ts = " + num(prod) + " the coefficients must lie strictly inside (0,1): lpf " + num((double)al) + ", hpf " + num((double)ah), in); return; }
                 // side by side: a coefficient may sit ON an end of the interval only where rounding saturates, i.e. where the exact
                 // value Ts/(RC+Ts) (RC/(RC+Ts)) itself rounds to that end in the real type; elsewhere it must be strictly inside.
                 // (float: the high-pass coefficient legitimately rounds to 1 for small fc*ts, the low-pass one does not round to 0)
                 {
-                    long double w = (long double)prod * 6.283185307179586476925L / (1 + (long double)prod * 6.283185307179586476925L);
+                    long double w = prodL * 6.283185307179586476925L / (1 + prodL * 6.283185307179586476925L);
                     long double tiny = 4 * (long double)std::numeric_limits<a_real>::min(), gap = (long double)EPS;
                     const char *bad = nullptr;
                     if (w > tiny && !(al > 0)) { bad = "the low-pass coefficient is 0"; }
                     else if (1 - w > gap && !(al < 1)) { bad = "the low-pass coefficient is 1"; }
                     else if (1 - w > tiny && !(ah > 0)) { bad = "the high-pass coefficient is 0"; }
                     else if (w > gap && !(ah < 1)) { bad = "the high-pass coefficient is 1"; }
-                    if (bad) { R.viol("gen|interior", std::string("for fc*ts = ") + num(prod) + " " + bad + " although the exact value " + num((double)w) + " / " + num((double)(1 - w)) + " does not round to that end of [0,1]", in); continue; }
+                    if (bad) { R.viol("gen|interior", std::string("for fc*ts = ") + num(prod) + " " + bad + " although the exact value " + num((double)w) + " / " + num((double)(1 - w)) + " does not round to that end of [0,1]", in); return; }
                 }
-                a_real ml = (a_real)A_LPF_GEN(std::pow(10.0, kf), std::pow(10.0, kt)), mh = (a_real)A_HPF_GEN(std::pow(10.0, kf), std::pow(10.0, kt));
-                if (std::fabs((double)ml - (double)al) > 4 * EPS || std::fabs((double)mh - (double)ah) > 4 * EPS) { R.viol("gen|macro", "the GEN macros disagree with the generator functions", in); continue; }
-                long double want = (long double)prod * 6.283185307179586476925L / (1 + (long double)prod * 6.283185307179586476925L);
-                if (std::fabs((double)((long double)al - want)) > 16 * EPS || std::fabs((double)((long double)ah - (1 - want))) > 16 * EPS) { R.viol("gen|value", "generated coefficients are not Ts/(RC+Ts) and RC/(RC+Ts)", in); continue; }
+                a_real ml = (a_real)A_LPF_GEN(fcd, tsd), mh = (a_real)A_HPF_GEN(fcd, tsd);
+                if (std::fabs((double)ml - (double)al) > 4 * EPS || std::fabs((double)mh - (double)ah) > 4 * EPS) { R.viol("gen|macro", "the GEN macros disagree with the generator functions", in); return; }
+                long double want = prodL * 6.283185307179586476925L / (1 + prodL * 6.283185307179586476925L);
+                if (std::fabs((double)((long double)al - want)) > 16 * EPS || std::fabs((double)((long double)ah - (1 - want))) > 16 * EPS) { R.viol("gen|value", "generated coefficients are not Ts/(RC+Ts) and RC/(RC+Ts)", in); return; }
                 a_lpf cl;
                 a_hpf ch;
                 cl.gen(fc, ts);
                 ch.gen(fc, ts);
                 if (cl.alpha != al || ch.alpha != ah) { R.viol("gen|cxx", "the C++ gen members disagree with the generator functions", in); }
+        };
+        // cut-off frequencies at the ends of the real type's normal range with sample times that keep the product moderate: an
+        // intermediate 2*pi*fc or 1/(2*pi*fc) must not overflow where the product itself is ordinary
+        {
+            int K = EPS == (double)FLT_EPSILON ? 37 : 307, S = EPS == (double)FLT_EPSILON ? 6 : 12;
+            for (double lead : {1.0, 1.7, 3.0})
+            {
+                for (int sign = -1; sign <= 1; sign += 2)
+                {
+                    double fcd = (double)(a_real)(lead * std::pow(10.0, sign * K));
+                    if (sign < 0 && lead == 1.0) { fcd = (double)(a_real)(3 * std::pow(10.0, -K)); }
+                    for (int sx = -S; sx <= S; ++sx)
+                    {
+                        double tsd = (double)(a_real)(std::pow(10.0, sx) / fcd);
+                        if (!std::isfinite((double)(a_real)tsd) || (a_real)tsd < std::numeric_limits<a_real>::min()) { continue; }
+                        check_pair(fcd, tsd, (long double)fcd * (long double)tsd);
+                    }
+                }
+            }
+        }
+        for (int s = -24; s <= 24; ++s)
+        {
+            for (int kf = -12; kf <= 12; ++kf)
+            {
+                int kt = s - kf;
+                if (kt < -12 || kt > 12) { continue; }
+                check_pair(std::pow(10.0, kf), std::pow(10.0, kt), (long double)std::pow(10.0, s));
             }
             // monotone in the product fc*ts (checked at kf = 0 when available)
             if (s >= -12 && s <= 12)
